@@ -166,7 +166,7 @@ func (m *model) afterFinishRecv(in ssa.Instruction) bool {
 		case *ssa.Select:
 			for k, st := range y.States {
 				if st.Dir == types.RecvOnly && m.isField(st.Chan, m.fFIN) {
-					if e := selectArmEntry(y, k); e != nil && e.Dominates(in.Block()) {
+					if t, _ := selectArmEdge(y, k); t != nil && ssax.EdgeDominates(t, 0, in.Block()) {
 						ok = true
 					}
 				}
@@ -178,31 +178,6 @@ func (m *model) afterFinishRecv(in ssa.Instruction) bool {
 		}
 	})
 	return ok
-}
-
-// selectArmEntry: the block executed when state k of sel was chosen.
-func selectArmEntry(sel *ssa.Select, k int) *ssa.BasicBlock {
-	var idx ssa.Value
-	for _, r := range *sel.Referrers() {
-		if e, ok := r.(*ssa.Extract); ok && e.Index == 0 {
-			idx = e
-		}
-	}
-	if idx == nil {
-		return nil
-	}
-	for _, r := range *idx.Referrers() {
-		b, ok := r.(*ssa.BinOp)
-		if !ok || b.Op != token.EQL || !ssax.IsConstInt(b.Y, int64(k)) {
-			continue
-		}
-		for _, rr := range *b.Referrers() {
-			if i, ok := rr.(*ssa.If); ok {
-				return i.Block().Succs[0]
-			}
-		}
-	}
-	return nil
 }
 
 // S4: sealed job.
